@@ -2,7 +2,7 @@
    reproduces what was observed on the implementation for a case (agree = true),
    then those observations satisfy the Spec (holds = true).  So on every case on
    which the run reports agree, the theorems about the model speak about the code. *)
-From Boltons Require Import Lib.Prelude Model.C04_Model Spec.C04_Spec Check.C04_Check Proofs.C04_Hoare Proofs.C04_Inv.
+From Boltons Require Import Lib.Prelude Model.C04_Model Spec.C04_Spec Check.C04_Check Proofs.C04_Hoare Proofs.C04_Inv Proofs.C04_Abort.
 Open Scope nat_scope.
 
 Lemma bytes_eqb_eq a b : bytes_eqb a b = true -> a = b.
@@ -56,6 +56,20 @@ Proof.
     apply Nat.eqb_eq in E2. lia.
 Qed.
 
+Lemma dest_good_model (c : c04_case) crash o w :
+  c_dest (k_cfg c) <> c_part (k_cfg c) -> same_dir (c_part (k_cfg c)) = true ->
+  run_model c crash = (o, w) ->
+  dest_good c (content_kill (w_fs w) (c_dest (k_cfg c))) = true.
+Proof.
+  intros Hdp Hpd Hr. unfold run_model in Hr.
+  assert (Hwf : wf (fs_of_list (k_init c))) by apply wf_fs_of_list.
+  assert (Holds0 : content_kill (fs_of_list (k_init c)) (c_dest (k_cfg c)) :: appear_contents (k_sched c) = olds c).
+  { unfold olds. rewrite content_kill_init. reflexivity. }
+  unfold dest_good. rewrite <- Holds0. destruct (k_raises c) eqn:Er.
+  - destruct (aborted_lemma (k_cfg c) _ _ _ _ _ o w Hdp Hpd Hwf Hr) as [H _]. exact H.
+  - destruct (crash_safe_lemma (k_cfg c) _ _ _ _ _ _ o w Hdp Hpd Hwf Hr) as [H _]. exact H.
+Qed.
+
 Theorem agree_implies_holds (c : c04_case) :
   c_dest (k_cfg c) <> c_part (k_cfg c) -> same_dir (c_part (k_cfg c)) = true ->
   agree c = true -> holds c = true.
@@ -69,32 +83,30 @@ Proof.
   assert (Hinp : In (c_part (k_cfg c)) (cands c)) by (unfold cands; right; left; reflexivity).
   unfold holds.
   (* crash observations *)
-  assert (H1 : forallb (fun kf => dest_ok (olds c) (new_content (k_body c)) (dest_of c (snd kf))) (k_crashes c) = true).
+  assert (H1 : forallb (fun kf => dest_good c (dest_of c (snd kf))) (k_crashes c) = true).
   { rewrite forallb_forall in *. intros [k fobs] Hin. specialize (Hcr _ Hin). unfold agree_crash in Hcr.
-    unfold run_model in Hcr.
-    destruct (run_save (k_cfg c) (k_body c) (k_raises c) (fs_of_list (k_init c)) (k_umask c) (Some k) (k_sched c)) as [o w] eqn:Er.
+    destruct (run_model c (Some k)) as [o w] eqn:Er.
     apply andb_true_iff in Hcr as [Hf _].
     destruct (files_agree_dest _ _ _ _ Hf Hind) as [Hd _].
-    destruct (crash_safe_lemma (k_cfg c) _ _ _ _ _ _ o w Hdp Hpd Hwf Er) as [Hk _].
-    cbn [snd]. unfold dest_of. rewrite Hd, <- Holds0. exact Hk. }
+    cbn [snd]. unfold dest_of. rewrite Hd. eapply dest_good_model; eauto. }
   rewrite H1. cbn [andb].
-  assert (H2 : forallb (fun f => dest_ok (olds c) (new_content (k_body c)) (dest_of c f)) (k_asyncs c) = true).
+  assert (H2 : forallb (fun f => dest_good c (dest_of c f)) (k_asyncs c) = true).
   { rewrite forallb_forall in *. intros fobs Hin. specialize (Has _ Hin). unfold agree_async in Has.
-    apply existsb_exists in Has as (k & _ & Hk). unfold run_model in Hk.
-    destruct (run_save (k_cfg c) (k_body c) (k_raises c) (fs_of_list (k_init c)) (k_umask c) (Some k) (k_sched c)) as [o w] eqn:Er.
+    apply existsb_exists in Has as (k & _ & Hk).
+    destruct (run_model c (Some k)) as [o w] eqn:Er.
     destruct (files_agree_dest _ _ _ _ Hk Hind) as [Hd _].
-    destruct (crash_safe_lemma (k_cfg c) _ _ _ _ _ _ o w Hdp Hpd Hwf Er) as [Hkk _].
-    unfold dest_of. rewrite Hd, <- Holds0. exact Hkk. }
+    unfold dest_of. rewrite Hd. eapply dest_good_model; eauto. }
   rewrite H2. cbn [andb].
-  unfold agree_run, run_model in Hrun.
-  destruct (run_save (k_cfg c) (k_body c) (k_raises c) (fs_of_list (k_init c)) (k_umask c) None (k_sched c)) as [o w] eqn:Er.
+  unfold agree_run in Hrun.
+  destruct (run_model c None) as [o w] eqn:Er0.
+  pose proof (dest_good_model c None o w Hdp Hpd Er0) as Hgood.
+  pose proof Er0 as Er. unfold run_model in Er.
   apply andb_true_iff in Hrun as [Hrun Hf]. apply andb_true_iff in Hrun as [Ho Ht].
   apply trace_eqb_eq in Ht.
   destruct (files_agree_dest _ _ _ _ Hf Hind) as [Hd _].
   destruct (files_agree_dest _ _ _ _ Hf Hinp) as [_ Hp].
-  destruct (crash_safe_lemma (k_cfg c) _ _ _ _ _ _ o w Hdp Hpd Hwf Er) as [Hk _].
   pose proof (calls_lemma (k_cfg c) _ _ _ _ _ _ o w Hdp Hpd Hwf Er) as Hc.
-  unfold dest_of. rewrite Hd, <- Holds0, Hk. cbn [andb].
+  unfold dest_of. rewrite Hd, Hgood. cbn [andb].
   rewrite <- Ht.
   destruct (r_outcome (k_run c)) eqn:Eo.
   - (* the caller saw a normal return: so did the model *)
